@@ -398,7 +398,10 @@ def class_attr(it, cls, name, node=None):
                     if cv == val:
                         return EnumVal(cls, cn, cv)
         if name == '__members__':
-            raise Unsupported('__members__')
+            canon = {}
+            for cn, cv in cls.canonical_members():
+                canon.setdefault(cv, cn)
+            return PDict([(n, EnumVal(cls, canon[val], val)) for n, val in cls.members])
     if cls.kind == 'host-enum':
         from . import libstubs
         return libstubs.host_enum_attr(it, cls, name, node)
